@@ -35,6 +35,9 @@ type c02Step struct {
 	Descr string   `json:"descr,omitempty"`
 	Tx    string   `json:"tx,omitempty"`
 	Log   string   `json:"log,omitempty"`
+	Checked   bool `json:"checked,omitempty"`    // these bytes went through CheckTx on this replica before the block
+	CheckOK   bool `json:"check_ok,omitempty"`   // ... and CheckTx accepted them
+	CheckGap  int  `json:"check_gap,omitempty"`  // blocks between that CheckTx and the delivery (0 = right before this block)
 	TK    int      `json:"tk,omitempty"`
 	Amt   string   `json:"amt,omitempty"`
 	Fin   []int    `json:"fin,omitempty"`
@@ -44,7 +47,15 @@ type c02Step struct {
 type c02Spec struct {
 	Name   string       `json:"name"`
 	World  [3]int       `json:"world"` // NewWorld(nvals, nusers, nextra)
-	Blocks []HBlockJSON `json:"blocks"`
+	Blocks []c02Block `json:"blocks"`
+}
+
+// c02Block: a block of a replayable history; Pre = transactions passed through CheckTx on the same replica right before this
+// block's BeginBlock (mempool check; they may be delivered in this block, in a later one, or never)
+type c02Block struct {
+	Txs    []string `json:"txs"`
+	Absent []int    `json:"absent,omitempty"`
+	Pre    []string `json:"pre,omitempty"`
 }
 
 type c02Case struct {
@@ -57,6 +68,7 @@ type c02Case struct {
 	Steps   []c02Step `json:"steps"`
 	Unknown []string `json:"unknown,omitempty"`
 	Bad     []string `json:"bad,omitempty"`
+	Crashed string   `json:"crashed,omitempty"` // the application panicked in this case (the case ends at that block)
 	Descr   [][]string `json:"-"`
 }
 
@@ -72,6 +84,7 @@ type c02Runner struct {
 	prefix   map[string]int
 	nonce    int
 	users    map[string]Key
+	checked   map[string][2]int64 // tx bytes -> (CheckTx code, height of the block it preceded)
 	blockVals []*identity.Validator // validator records of the committed state at block start (the election queue's source)
 }
 
@@ -118,8 +131,34 @@ func (r *c02Runner) step(kind int, before, after *c02View) *c02Step {
 }
 
 // block runs one block: BeginBlock, the transactions, EndBlock, Commit
-func (r *c02Runner) block(in *BlockIn, descr []string) {
-	jb := HBlockJSON{}
+func (r *c02Runner) block(in *BlockIn, descr []string) { r.blockPre(in, descr, nil) }
+
+// blockPre: CheckTx of pre (in order) on this replica, then the block
+func (r *c02Runner) blockPre(in *BlockIn, descr []string, pre [][]byte) {
+	if r.c.Crashed != "" {
+		return // the application panicked earlier in this case (handlePanic closed its database): the case ends there
+	}
+	defer func() {
+		if e := recover(); e != nil {
+			r.c.Crashed = fmt.Sprintf("height %d: %v", r.rep.H, e)
+			if len(r.c.Crashed) > 300 {
+				r.c.Crashed = r.c.Crashed[:300]
+			}
+		}
+	}()
+	r.blockPre1(in, descr, pre)
+}
+
+func (r *c02Runner) blockPre1(in *BlockIn, descr []string, pre [][]byte) {
+	jb := c02Block{}
+	if r.checked == nil {
+		r.checked = map[string][2]int64{}
+	}
+	for _, t := range pre {
+		jb.Pre = append(jb.Pre, hex.EncodeToString(t))
+		res := r.rep.CheckTx(t)
+		r.checked[string(t)] = [2]int64{int64(res.Code), r.rep.H + 1}
+	}
 	for _, t := range in.Txs {
 		jb.Txs = append(jb.Txs, hex.EncodeToString(t))
 	}
@@ -163,6 +202,9 @@ func (r *c02Runner) block(in *BlockIn, descr []string) {
 		s = r.step(1, before, after)
 		s.OK = res.Code == 0
 		s.Tx = hex.EncodeToString(tx)
+		if ck, ok := r.checked[string(tx)]; ok {
+			s.Checked, s.CheckOK, s.CheckGap = true, ck[0] == 0, int(r.rep.H-ck[1])
+		}
 		if i < len(descr) {
 			s.Descr = descr[i]
 		}
@@ -227,6 +269,8 @@ func (r *c02Runner) block(in *BlockIn, descr []string) {
 	r.cur = after
 	r.rep.Commit()
 }
+
+var c02WitnessExodus = map[string]int{"reward_withdrawal_empty_pool": 1, "reward_withdrawal_empty_pool_checktx": 2}
 
 // c02Witness: short directed histories for the recorded findings
 func c02Witness(name string, w *World) *History {
@@ -335,6 +379,12 @@ func c02Witness(name string, w *World) *History {
 		GAS = 1000000
 		s.block([][]byte{t4, txSend(u0, u2.Addr, oltAmt("1"), s.memo())}, "send to self, gas limit 1 (refused)", "send 1")
 		s.empty(1)
+	case "reward_withdrawal_empty_pool", "reward_withdrawal_empty_pool_checktx":
+		// a delegator delegates, rewards accrue; then the epilogue c02Runner.exodus: reward withdrawal, everybody undelegates
+		// everything, the withdrawal matures while the delegation pool is empty (second variant: a CheckTx right before each block)
+		s.empty(2)
+		s.block([][]byte{txDelegate(u0, oltAmt("250000000000000000000"), s.memo()), txDelegate(u1, oltAmt("70000000000000000000"), s.memo())}, "delegate 250", "delegate 70")
+		s.empty(5)
 	case "two_finalized_in_one_block":
 		full := scenarioHistory("govupdate", w)
 		s.h.Blocks, s.h.Descr = full.Blocks[:7], full.Descr[:7]
@@ -374,16 +424,101 @@ func (r *c02Runner) finish() *c02Case {
 	return c
 }
 
-func c02RunHistory(name string, world [3]int, h *History) (*c02Case, map[string]int) {
+// c02RunHistory runs a generated history.  Mempool policy (so that every transaction kind and every forged transaction is seen
+// both ways over a run): block i mod 3 = 0: delivered without a prior CheckTx; 1: every transaction goes through CheckTx right
+// before the block; 2: its transactions went through CheckTx BEFORE the previous (unrelated) block.  exodus: the epilogue
+// "reward withdrawal, then every delegator undelegates everything" (see c02Runner.exodus)
+func c02RunHistory(name string, world [3]int, h *History, exodus int) (*c02Case, map[string]int) {
 	r := c02NewRunner(name, world, nil)
 	for i := range h.Blocks {
 		var d []string
 		if i < len(h.Descr) {
 			d = h.Descr[i]
 		}
-		r.block(&h.Blocks[i], d)
+		var pre [][]byte
+		if i%3 == 1 {
+			pre = append(pre, h.Blocks[i].Txs...)
+		}
+		if i+1 < len(h.Blocks) && (i+1)%3 == 2 {
+			pre = append(pre, h.Blocks[i+1].Txs...)
+		}
+		r.blockPre(&h.Blocks[i], d, pre)
+	}
+	if exodus > 0 {
+		r.exodus(exodus == 2)
 	}
 	return r.finish(), r.prefix
+}
+
+// c02Replay re-runs a recorded spec exactly (same CheckTx calls at the same places)
+func c02Replay(s c02Spec) (*c02Case, map[string]int) {
+	r := c02NewRunner(s.Name, s.World, nil)
+	for _, b := range s.Blocks {
+		in := BlockIn{Absent: map[int]bool{}}
+		for _, t := range b.Txs {
+			bz, _ := hex.DecodeString(t)
+			in.Txs = append(in.Txs, bz)
+		}
+		for _, i := range b.Absent {
+			in.Absent[i] = true
+		}
+		pre := [][]byte{}
+		for _, t := range b.Pre {
+			bz, _ := hex.DecodeString(t)
+			pre = append(pre, bz)
+		}
+		r.blockPre(&in, make([]string, len(in.Txs)), pre)
+	}
+	return r.finish(), r.prefix
+}
+
+// exodus: every delegator with a reward claim starts a reward withdrawal; in the next block EVERY delegator undelegates everything,
+// so that the delegation pool is empty when the withdrawal matures; then blocks past both maturities (withCheck: a CheckTx of an
+// unrelated valid transaction is the last ABCI call before each of those blocks)
+func (r *c02Runner) exodus(withCheck bool) {
+	keysOf := map[string]Key{}
+	for _, u := range append(append([]Key{}, r.w.Users...), r.w.Poor...) {
+		keysOf[u.Addr.String()] = u
+	}
+	GAS = 1000000
+	dels := []string{}
+	for k, a := range r.cur.Led {
+		if k.Bucket == c02BDelegAct && a.Sign() > 0 {
+			if _, ok := keysOf[k.Owner]; ok {
+				dels = append(dels, k.Owner)
+			}
+		}
+	}
+	sort.Strings(dels)
+	if len(dels) == 0 {
+		return
+	}
+	txs, descr := [][]byte{}, []string{}
+	for _, d := range dels {
+		if rb := r.cur.Led[c02Key{d, c02BRewBal, "OLT", ""}]; rb != nil && rb.Sign() > 0 {
+			half := new(big.Int).Div(new(big.Int).Add(rb, big.NewInt(1)), big.NewInt(2))
+			txs = append(txs, txDelegWithdrawRewards(keysOf[d], oltAmt(half.String()), r.memo()))
+			descr = append(descr, "exodus: reward withdrawal of half the claim")
+		}
+	}
+	r.block(&BlockIn{Txs: txs, Absent: map[int]bool{}}, descr)
+	txs, descr = nil, nil
+	for _, d := range dels {
+		act := r.cur.Led[c02Key{d, c02BDelegAct, "OLT", ""}]
+		if act == nil || act.Sign() <= 0 {
+			continue
+		}
+		txs = append(txs, txUndelegate(keysOf[d], oltAmt(act.String()), r.memo()))
+		descr = append(descr, "exodus: undelegate everything")
+	}
+	r.block(&BlockIn{Txs: txs, Absent: map[int]bool{}}, descr)
+	for i := 0; i < 7; i++ {
+		var pre [][]byte
+		if withCheck {
+			pre = [][]byte{txSend(r.w.Users[0], r.w.Users[1].Addr, oltAmt("1000"), r.memo())}
+		}
+		r.blockPre(&BlockIn{Absent: map[int]bool{}}, nil, pre)
+	}
 }
 
 // ---------- Coq output ----------
@@ -424,10 +559,12 @@ type c02Report struct {
 	SourceHist map[string]int `json:"source_histogram"`
 	AdvHist    map[string]int `json:"adversarial_histogram"`
 	PrefixHist map[string]int `json:"decoded_prefix_histogram"`
+	Mempool    map[string]int `json:"mempool_histogram"`
 	Records    int            `json:"max_ledger_records"`
 	Owners     int            `json:"max_owners"`
 	Unknown    []string       `json:"unknown_keys"`
 	Bad        []string       `json:"undecodable_values"`
+	Crashed    []string       `json:"crashed_cases"`
 	Distinct   int            `json:"distinct_cases"`
 	Files      []string       `json:"files"`
 	Samples    []string       `json:"samples"`
@@ -446,7 +583,7 @@ func c02Main(args []string) int {
 	extra := fs.String("extra", "", "JSON file with a list of case specs to replay in addition")
 	fs.Parse(args)
 
-	rep := c02Report{KindHist: map[string]int{}, OutHist: map[string]int{}, ModelHist: map[string]int{}, SourceHist: map[string]int{}, AdvHist: map[string]int{}, PrefixHist: map[string]int{}}
+	rep := c02Report{KindHist: map[string]int{}, OutHist: map[string]int{}, ModelHist: map[string]int{}, SourceHist: map[string]int{}, AdvHist: map[string]int{}, PrefixHist: map[string]int{}, Mempool: map[string]int{}}
 	var cases []*c02Case
 	mergePrefix := func(p map[string]int) {
 		for k, n := range p {
@@ -468,7 +605,7 @@ func c02Main(args []string) int {
 		return specs
 	}
 	replaySpec := func(s c02Spec) {
-		c, p := c02RunHistory(s.Name, s.World, historyFromJSON(s.Blocks))
+		c, p := c02Replay(s)
 		cases = append(cases, c)
 		mergePrefix(p)
 		rep.SourceHist["replay"]++
@@ -484,16 +621,16 @@ func c02Main(args []string) int {
 			}
 		}
 		world := [3]int{3, 5, 2}
-		for _, name := range []string{"proposal_fund_negative", "two_finalized_in_one_block", "withdraw_funds_negative", "withdraw_reward_negative", "olvm_foreign_from", "double_unstake", "self_stake_foreign_slot0", "refused_credit_then_spend"} {
+		for _, name := range []string{"proposal_fund_negative", "two_finalized_in_one_block", "withdraw_funds_negative", "withdraw_reward_negative", "olvm_foreign_from", "double_unstake", "self_stake_foreign_slot0", "refused_credit_then_spend", "reward_withdrawal_empty_pool", "reward_withdrawal_empty_pool_checktx"} {
 			w := NewWorld(world[0], world[1], world[2])
-			c, p := c02RunHistory("witness_"+name, world, c02Witness(name, w))
+			c, p := c02RunHistory("witness_"+name, world, c02Witness(name, w), c02WitnessExodus[name])
 			cases = append(cases, c)
 			mergePrefix(p)
 			rep.SourceHist["witness"]++
 		}
 		for _, name := range scenarioNames {
 			w := NewWorld(world[0], world[1], world[2])
-			c, p := c02RunHistory("scenario_"+name, world, scenarioHistory(name, w))
+			c, p := c02RunHistory("scenario_"+name, world, scenarioHistory(name, w), 0)
 			cases = append(cases, c)
 			mergePrefix(p)
 			rep.SourceHist["scenario"]++
@@ -508,7 +645,7 @@ func c02Main(args []string) int {
 		for i := 0; i < *nrand; i++ {
 			r := rand.New(rand.NewSource(*seed*1000003 + int64(i)))
 			w := NewWorld(world[0], world[1], world[2])
-			c, p := c02RunHistory(fmt.Sprintf("random_%d", i), world, genHistory(r, w, *nblocks, *txPer))
+			c, p := c02RunHistory(fmt.Sprintf("random_%d", i), world, genHistory(r, w, *nblocks, *txPer), 1+i%2)
 			cases = append(cases, c)
 			mergePrefix(p)
 			rep.SourceHist["random"]++
@@ -529,6 +666,32 @@ func c02Main(args []string) int {
 			case 1:
 				rep.Txs++
 				rep.KindHist[s.Type]++
+				forged := strings.Contains(s.Descr, "signed by the attacker") || strings.Contains(s.Descr, "signed by that other account") ||
+					strings.HasPrefix(s.Descr, "sigslot") || strings.Contains(s.Descr, "foreign From") || strings.Contains(s.Descr, "slot 0 = victim")
+				switch {
+				case !s.Checked:
+					rep.Mempool["delivered_without_checktx"]++
+					if forged {
+						rep.Mempool["forged_delivered_without_checktx"]++
+					}
+				default:
+					rep.Mempool["checked_then_delivered"]++
+					if s.CheckGap > 0 {
+						rep.Mempool["checked_then_delivered_after_an_unrelated_block"]++
+					}
+					if !s.CheckOK {
+						rep.Mempool["refused_by_checktx_then_delivered"]++
+						if s.OK {
+							rep.Mempool["refused_by_checktx_but_executed_in_the_block"]++
+						}
+					}
+					if forged {
+						rep.Mempool["forged_checked_then_delivered"]++
+						if s.CheckGap > 0 {
+							rep.Mempool["forged_checked_then_delivered_after_an_unrelated_block"]++
+						}
+					}
+				}
 				if s.OK {
 					rep.TxOK++
 					rep.OutHist[s.Type+":ok"]++
@@ -559,6 +722,9 @@ func c02Main(args []string) int {
 		}
 		for _, k := range c.Bad {
 			bad[k] = true
+		}
+		if c.Crashed != "" {
+			rep.Crashed = append(rep.Crashed, c.Spec.Name+": "+c.Crashed)
 		}
 		seen[jsonString(c.Spec.Blocks)] = true
 	}
